@@ -41,6 +41,8 @@ def forms():
                                              I.expr(I.call(k(), I.comp("q", k(), I.add(I.walrus("a", I.read("q")), I.site(k())))))], ["a"])
     F["starred"] = lambda k: ([I.assign(I.tup(I.name("a"), I.star("b")), I.useq(k()))], ["a"])
     F["attr"] = lambda k: ([I.assign(I.name("o"), I.obj(k())), I.assign(I.attr("o", "x"), I.site(k()))], [])
+    F["subscript_attr_index"] = lambda k: ([I.assign(I.name("o"), I.obj(k())), I.assign(I.sub("o", I.headof("o")), I.site(k())),
+                                             I.assign(I.sub("o", I.headof("o")), I.site(k()))], [])
     F["subscript"] = lambda k: ([I.assign(I.name("o"), I.obj(k())), I.assign(I.sub("o", I.site(k())), I.site(k()))], [])
     F["chained"] = lambda k: ([I.assign([I.name("a"), I.name("b")], I.site(k()))], ["a", "b"])
     F["chained3"] = lambda k: ([I.assign([I.name("a"), I.name("b"), I.name("c")], I.site(k()))], ["a", "b", "c"])
@@ -73,6 +75,7 @@ def forms():
     F["del"] = lambda k: ([I.assign(I.name("a"), I.site(k())), I.del_("a"), I.assign(I.name("a"), I.site(k()))], ["a"])
     F["global"] = lambda k: ([I.global_("GV"), I.assign(I.name("GV"), I.site(k()))], [])
     F["global_read"] = lambda k: ([I.global_("GR"), I.assign(I.name("a"), I.add(I.read("GR"), I.site(k())))], ["a"])
+    F["return_walrus"] = lambda k: ([I.assign(I.name("a"), I.site(k())), I.if_(k(), [I.ret(I.add(I.walrus("a", I.site(k())), I.site(k())))])], ["a"])
     F["return_mid"] = lambda k: ([I.assign(I.name("a"), I.site(k())), I.if_(k(), [I.ret(I.site(k()))])], ["a"])
     F["with_as"] = lambda k: ([I.with_(k(), "w", [I.assign(I.name("a"), I.read("w"))])], ["a", "w"])
     F["except_as"] = lambda k: ([I.try_([I.raise_(k()), I.assign(I.name("a"), I.site(k()))],
